@@ -46,12 +46,20 @@ type assetMgr struct {
 
 // findAsset finds the asset by matching the uri with all assets paths.
 func (am *assetMgr) findAsset(uri string) (*asset, bool) {
+	// The assets are kept in a map, so the iteration order varies. With nested assets
+	// (x and x/y) more than one path can match: the longest one is the asset meant.
+	best, found := "", false
 	for assetPath := range am.assets {
 		if uri == assetPath || strings.HasPrefix(uri, assetPath+"/") {
-			return am.assets[assetPath], true
+			if !found || len(assetPath) > len(best) {
+				best, found = assetPath, true
+			}
 		}
 	}
-	return nil, false
+	if !found {
+		return nil, false
+	}
+	return am.assets[best], true
 }
 
 // addAsset adds or retrieves an asset.
